@@ -343,6 +343,9 @@ pub fn run(tier: &str) -> i32 {
             }
         };
         rep.nontrivial.insert(hash64(&p.src));
+        if thorough || i % 2 == 0 {
+            option_leg(&mut rep, &p.key, &p.src, &cfg, t, "the constants struct and its map", &|kind, name| (kind == "struct" || kind == "impl") && name == "OverrideConstants");
+        }
         for x in v {
             rep.violation(p.key.clone(), format!("model: {x}"), json!({"wgsl": p.src, "config": cfg.key(), "observed": x}));
         }
